@@ -257,6 +257,20 @@ func init() {
 		}
 		return nil
 	}
+	// sort.Search: the library's own bisection, the predicate is the interpreted closure
+	reg("sort.Search", func(i *interpreter, fr *frame, args []value) value {
+		n := int(asInt64(args[0]))
+		lo, hi := 0, n
+		for lo < hi {
+			h := int(uint(lo+hi) >> 1)
+			if !i.condBool(call(i, fr, token.NoPos, args[1], []value{h}), "sortsearch") {
+				lo = h + 1
+			} else {
+				hi = h
+			}
+		}
+		return lo
+	})
 	reg("sort.Slice", sortSlice)
 	reg("sort.SliceStable", sortSlice)
 	reg("sort.Ints", func(i *interpreter, fr *frame, args []value) value {
